@@ -23,6 +23,8 @@ WEAK = {
                               "set's validator index: members with index >= commit length never remembered"),
     "TrustsEncodedTotal": (("CaseSoundFull", "CaseSoundLight", "CaseSoundTrusting"),
                            "ValidatorSetFromProto copies an in-range total_voting_power of the encoded form into the cached total"),
+    "IncompleteIdSignsAsNil": (("CaseSoundFull", "CaseSoundLight", "CaseSoundTrusting"),
+                               "CanonicalizeBlockID maps every incomplete block id to nil: nil signatures verify for it"),
     "NoBlockIDCheck": (("CaseSoundFull", "CaseSoundLight"), "blockID argument not compared with commit.BlockID"),
     "SignBytesIgnoreRound": (("CaseSoundFull", "CaseSoundLight", "CaseSoundTrusting"),
                              "canonical vote does not bind the round"),
